@@ -94,6 +94,7 @@ type nativeResult struct {
 const verifDir = "/verif"
 
 func matchesPrefix(label string, prefixes []string) bool {
+	label = strings.TrimPrefix(label, "sym:")
 	if label == "no-uncaught-crash" {
 		return true
 	}
@@ -236,7 +237,30 @@ func cmdCheck(argv []string) int {
 		knownList = append(knownList, k)
 	}
 	sort.Strings(knownList)
+	symConfirmed := map[int]bool{}
 	for i, v := range viol {
+		if strings.HasPrefix(v.Label, "sym:") {
+			// engine-only observation: confirm by a concrete re-execution of the real SSA with the
+			// model's inputs (every nondeterministic order explored); it must fail again on some path
+			for _, res := range results {
+				if res.Spec.Entry+fmt.Sprint(res.Spec.Args) != v.Harness {
+					continue
+				}
+				rs := res.Spec
+				rs.Concrete = v.Inputs
+				rs.Workers, rs.Cosim, rs.XCheck, rs.MergeAt = 1, 0, false, nil
+				cres, err := prog.Run(rs)
+				if err == nil {
+					for _, cv := range cres.Stats.Violations {
+						if cv.Label == v.Label {
+							symConfirmed[i] = true
+						}
+					}
+				}
+				break
+			}
+			continue
+		}
 		e, a := entryOf(v.Harness)
 		cases = append(cases, nativeCase{Dir: dirOf(v.Harness), ID: fmt.Sprintf("viol-%03d", i), Entry: e, Args: a, Inputs: v.Inputs, Known: knownList,
 			Props: []string{id}, Want: v.Label, Reps: 3000})
@@ -320,6 +344,9 @@ func cmdCheck(argv []string) int {
 				byID[r.ID] = r
 			}
 			for i, v := range viol {
+				if strings.HasPrefix(v.Label, "sym:") {
+					continue
+				}
 				r := byID[fmt.Sprintf("viol-%03d", i)]
 				if r.Reproduced {
 					confirmed = append(confirmed, v)
@@ -346,6 +373,16 @@ func cmdCheck(argv []string) int {
 				} else {
 					cosimN++
 				}
+			}
+		}
+	}
+	for i, v := range viol {
+		if strings.HasPrefix(v.Label, "sym:") {
+			if symConfirmed[i] {
+				v.Detail = "engine-only observation; confirmed by concrete re-execution of the real SSA (not replayable in the native build)"
+				confirmed = append(confirmed, v)
+			} else {
+				inconclusive = append(inconclusive, "SPURIOUS-COUNTEREXAMPLE "+v.Label+": did not fail again under concrete re-execution")
 			}
 		}
 	}
